@@ -235,6 +235,9 @@ func (ab actionsBuilder) preparePipelineActions(oldConfig, newConfig config.Pipe
 		cmpopts.IgnoreFields(config.Pipeline{}, config.PipelineIgnoredFields...),
 		cmp.Comparer(func(c1, c2 config.Connector) bool { return c1.ID == c2.ID }),
 		cmp.Comparer(func(c1, c2 config.Processor) bool { return c1.ID == c2.ID }),
+		// an empty list or map is the same configuration as a missing one (Export
+		// returns nil lists, the API builds empty ones), it must not produce an update
+		cmpopts.EquateEmpty(),
 	}
 
 	if !cmp.Equal(oldConfig, newConfig, opts...) {
@@ -270,6 +273,9 @@ func (ab actionsBuilder) prepareConnectorActions(oldConfig, newConfig config.Con
 	// first compare configs but ignore nested configs
 	opts := []cmp.Option{
 		cmp.Comparer(func(p1, p2 config.Processor) bool { return p1.ID == p2.ID }),
+		// an empty list or map is the same configuration as a missing one (Export
+		// returns nil lists, the API builds empty ones), it must not produce an update
+		cmpopts.EquateEmpty(),
 	}
 	if cmp.Equal(oldConfig, newConfig, opts...) {
 		// configs match, no need to do anything
